@@ -66,6 +66,59 @@ Definition status_after_json (json_rt : Z -> option Z) (ty : string) (n : Z) : r
   | None => RSObj None
   end.
 
+(* ---- issuerData.credentialStatus as the JSON object that stands in the proof ----
+   coerceCredentialStatus re-encodes the jsonObj and decodes it into
+     CredentialStatus{ID string; Type string; RevocationNonce uint64; StatusIssuer *CredentialStatus}
+   (encoding/json: unknown members are ignored, null leaves a field at its zero value, a member
+   of the wrong JSON kind is an error; every number went through float64 first: json_rt).
+   jv is a JSON value as far as this decoder can tell values apart. *)
+Inductive jv :=
+| JNull
+| JStr (s : string)
+| JNum (n : Z)                      (* a non-negative integer literal *)
+| JObj (o : list (string * jv))
+| JBad.                             (* any other value: boolean, array, other numbers *)
+
+Fixpoint jget (k : string) (o : list (string * jv)) : option jv :=
+  match o with
+  | [] => None
+  | (a, v) :: r => if String.eqb a k then Some v else jget k r
+  end.
+
+Definition j_string (v : option jv) : option string :=       (* a string field *)
+  match v with
+  | None | Some JNull => Some ""%string
+  | Some (JStr s) => Some s
+  | _ => None
+  end.
+Definition j_uint64 (json_rt : Z -> option Z) (v : option jv) : option Z :=   (* a uint64 field *)
+  match v with
+  | None | Some JNull => Some 0%Z
+  | Some (JNum n) => json_rt n
+  | _ => None
+  end.
+
+(* fuel = nesting depth of statusIssuer objects still allowed (the harness nests at most 3) *)
+Fixpoint decode_cs (fuel : nat) (json_rt : Z -> option Z) (o : list (string * jv)) : option cred_status :=
+  match fuel with
+  | O => None
+  | S f =>
+      match j_string (jget "id" o), j_string (jget "type" o), j_uint64 json_rt (jget "revocationNonce" o) with
+      | Some _, Some ty, Some n =>
+          match jget "statusIssuer" o with
+          | None | Some JNull => Some (mkcs ty n)
+          | Some (JObj si) =>
+              (* the nested entry must decode; NOTHING of it reaches the verifier's decision *)
+              match decode_cs f json_rt si with Some _ => Some (mkcs ty n) | None => None end
+          | Some _ => None
+          end
+      | _, _, _ => None
+      end
+  end.
+
+Definition status_of_json (fuel : nat) (json_rt : Z -> option Z) (o : list (string * jv)) : raw_status :=
+  RSObj (decode_cs fuel json_rt o).
+
 (* shapes of issuerData.credentialStatus that can come out of a JSON decoder *)
 Definition json_shaped (r : raw_status) : bool :=
   match r with RSObj _ | RSOther => true | _ => false end.
